@@ -12,7 +12,7 @@ VARIABLES l, k, st, dead
 vars == <<l, k, st, dead>>
 Has(r, f) == f \in DOMAIN r
 NP(e) == Len(e.obs.msgs)
-St0(e) == [begun |-> [p \in 1..NP(e) |-> 0], written |-> [p \in 1..NP(e) |-> 0], pend |-> <<>>, frames |-> 0]
+St0(e) == [begun |-> [p \in 1..NP(e) |-> 0], written |-> [p \in 1..NP(e) |-> 0], pend |-> <<>>, frames |-> 0, faulted |-> FALSE]
 Ok(s) == [ok |-> TRUE, st |-> s, why |-> ""]
 No(s, why) == [ok |-> FALSE, st |-> s, why |-> why]
 \* consume complete frames from the pending bytes
@@ -35,8 +35,10 @@ Step(e, s, ev) ==
   CASE ev.e = "SB" -> IF ev.i = s.begun[ev.p] + 1 THEN Ok([s EXCEPT !.begun[ev.p] = ev.i]) ELSE No(s, "rig: submissions out of order")
     [] ev.e = "SE" -> Ok(s)
     [] ev.e = "W" -> Drain(e, [s EXCEPT !.pend = @ \o ev.b])
+    [] ev.e = "WFault" -> Ok([s EXCEPT !.faulted = TRUE])       \* the connection accepted part of a frame and timed out
     [] ev.e = "End" ->
          IF Has(ev, "races") /\ ev.races > 0 THEN No(s, "data race reported by the race detector")
+         ELSE IF s.faulted THEN Ok(s)       \* after a write failure completeness is not required: everything on the wire was still judged frame by frame
          ELSE IF s.pend # <<>> THEN No(s, "the wire ends inside a frame")
          ELSE IF \E p \in 1..NP(e) : s.written[p] # Len(e.obs.msgs[p]) THEN No(s, "a submitted message was never written")
          ELSE Ok(s)
